@@ -5,6 +5,7 @@ CONSTANTS
   NoConn = 0
   Listeners <- TraceListeners
   CloseOnShutdown <- TraceCOS
+  Mixed = TRUE
   ReduceMem = FALSE
   FlushOnStop = TRUE
   IdleWhenDrained = TRUE
